@@ -13,9 +13,7 @@ import Verif.C19.Lemmas
 namespace Verif.C19
 open Verif.Tables
 
-/-- the generated termini tables are the ones the proofs were made for -/
-theorem termini_pinned : parserTermini = [.blank, .blank] ∧ transfererTermini = [.blank]
-    ∧ generatorTermini = [.parseNote] ∧ generatorTsdbTermini = [.resultsOpen] := ⟨rfl, rfl, rfl, rfl⟩
+def blankL' : Line := { blank := true, empty := true }
 
 /-- "each interaction returns exactly one response that records its own input, responses come back in input
 order, any results in a response are the results the processor produced for that very input and never those
@@ -63,8 +61,42 @@ theorem default_protocol_always_responds (c : Cfg) (items : List Item) (orc : Li
     obtain ⟨j, hj, hje⟩ := List.getElem_of_mem ho
     have hj' : (run c items orc).resps[j]? = some (Except.error e) := by
       rw [List.getElem?_eq_getElem hj, hje]
-    have he := (h.err j e hj').2
+    have he := (h.err j e hj').2.1
     rw [hd] at he; cases he
+
+/-- "… instead of an exception", at full strength for the tsdb protocol as well: if the answer written for
+every input decodes into the shapes `_tsdb_response` digests (`shapedItem`: `:p-input`/`:p-tokens` carry a
+string, `:results` a list of lists of (key . value) fields, no `:chart` — the shapes ACE produces; a decidable
+predicate on the tokens of the item, evaluated for every generated case by the correspondence run), then EVERY
+interaction returns a response — for every configuration, exit policy, cut point and oracle stream.
+Conversely an error can only be the decoder's: the model's `unmodelled` stands for the TypeError / ValueError /
+AttributeError the real `_tsdb_response` raises on such shapes (compared on the `unshaped` sessions). -/
+theorem shaped_always_responds (c : Cfg) (items : List Item) (orc : List Bool)
+    (hwf : ∀ it ∈ items, WF c it) (hsh : ∀ it ∈ items, shapedItem c it = true) :
+    ∀ o ∈ (run c items orc).resps, ∃ r, o = Except.ok r := by
+  have hi := init_spec c orc
+  have h := runFrom_spec c items 0 (init c orc) hi.1 hi.2 hwf
+  intro o ho
+  cases o with
+  | ok r => exact ⟨r, rfl⟩
+  | error e =>
+    exfalso
+    obtain ⟨j, hj, hje⟩ := List.getElem_of_mem ho
+    have hj' : (run c items orc).resps[j]? = some (Except.error e) := by
+      rw [List.getElem?_eq_getElem hj, hje]
+    obtain ⟨_, _, it, hit, hns⟩ := h.err j e hj'
+    have hmem : it ∈ items := List.mem_of_getElem? hit
+    rw [hsh it hmem] at hns
+    cases hns
+
+/-- a well-formed processor that answers `(:results . 3)` does get the decoder's error (the hypothesis of
+`shaped_always_responds` is needed) -/
+theorem unshaped_raises :
+    let c : Cfg := { front := .parser, tsdb := true }
+    let it : Item := { text := "a".toList,
+                       out := [{ toks := [.lp, .txt kResults, .dot, .num 3, .rp] }, blankL', blankL'], die := none }
+    shapedItem c it = false ∧
+    (run c [it] []).resps.map (fun o => match o with | .ok _ => 0 | .error _ => 1) = [1] := by decide
 
 /-- "any results in a response are the results the processor produced for that very input" read as
 COMPLETE lines (F54, repaired in ab63037): with the default (non-tsdb) protocol every line that a response is
@@ -117,27 +149,6 @@ theorem skipped_iff_refused (c : Cfg) (items : List Item) (orc : List Bool) (hwf
   rw [hit] at h1; injection h1 with h1; subst h1
   exact h4
 
-theorem lstrip_nil_iff (s : List Char) : lstrip s = [] ↔ ∀ ch ∈ s, isPySpace ch = true := by
-  induction s with
-  | nil => simp [lstrip]
-  | cons a r ih =>
-    simp only [lstrip]
-    by_cases h : isPySpace a = true
-    · simp [h, ih]
-    · simp [h]
-
-theorem lstrip_head (s : List Char) : ∀ a r, lstrip s = a :: r → isPySpace a = false := by
-  induction s with
-  | nil => intro a r h; simp [lstrip] at h
-  | cons b t ih =>
-    intro a r h
-    simp only [lstrip] at h
-    by_cases hb : isPySpace b = true
-    · simp only [hb, if_true] at h; exact ih a r h
-    · simp only [hb] at h
-      injection h with h1 h2
-      subst h1; simpa using hb
-
 /-- "blank parser input": the parser refuses exactly the inputs that consist of white space only -/
 theorem parser_refuses_blank (s : List Char) :
     validate .parser s = none ↔ ∀ ch ∈ s, isPySpace ch = true := by
@@ -159,21 +170,6 @@ theorem parser_refuses_blank (s : List Char) :
   rw [← lstrip_nil_iff, ← key]
   by_cases h : strip s = [] <;> simp [h]
 
-theorem pmScan_no_open : ∀ (s : List Char) (i : Nat) (d : Int), '[' ∉ s → (pmScan s i d none).1 = none := by
-  intro s
-  induction s with
-  | nil => intro i d _; rfl
-  | cons c r ih =>
-    intro i d h
-    have hc : c ≠ '[' := by intro e; exact h (by simp [e])
-    have hr : '[' ∉ r := by intro e; exact h (by simp [e])
-    simp only [pmScan, hc, if_false]
-    split
-    · split
-      · rfl
-      · exact ih _ _ hr
-    · exact ih _ _ hr
-
 /-- "text without an MRS for generation or transfer": no opening bracket, no MRS, not sent -/
 theorem no_bracket_refused (f : Front) (hf : f ≠ .parser) (s : List Char) (h : '[' ∉ s) :
     validate f s = none := by
@@ -190,6 +186,16 @@ theorem no_bracket_refused (f : Front) (hf : f ≠ .parser) (s : List Char) (h :
   | parser => exact absurd rfl hf
   | transferer => simp [hp]
   | generator => simp [hp]
+
+/-- … and exactly then: the generator and the transferer refuse an input iff `_possible_mrs` finds no
+bracketed span in it -/
+theorem refused_iff_no_mrs (f : Front) (hf : f ≠ .parser) (s : List Char) :
+    validate f s = none ↔ possibleMrs s = [] := by
+  unfold validate
+  cases f with
+  | parser => exact absurd rfl hf
+  | transferer => by_cases h : possibleMrs s = [] <;> simp [h]
+  | generator => by_cases h : possibleMrs s = [] <;> simp [h]
 
 /-- "closing returns the exit status with the run's end time recorded": `close()` stamps the end on the
 current (last) run record, keeps the number of run records, and returns the exit status of the current
@@ -212,11 +218,46 @@ theorem session_close (c : Cfg) (items : List Item) (orc : List Bool) (hwf : ∀
   have h := runFrom_spec c items 0 (init c orc) h0.1 h0.2 hwf
   exact (close_records_end c _ h.runs_ne).1
 
+/-- "closing returns the exit status", session level (1): when no input makes the processor exit, the
+processor started at construction is never replaced and `close()` returns its normal exit status. -/
+theorem close_status_all_answering (c : Cfg) (items : List Item) (orc : List Bool)
+    (h : ∀ it ∈ items, it.die = none) : (run c items orc).close = c.exitOk := by
+  have h0 : Alive (init c orc) := ⟨rfl, rfl, rfl⟩
+  have ha := runFrom_alive c items 0 (init c orc) h0 h
+  unfold run
+  generalize runFrom c 0 items (init c orc) = rr at ha
+  obtain ⟨os, s⟩ := rr
+  have ha' : Alive s := ha
+  simp [closeProc, ha'.1, ha'.2.1]
+
+/-- "closing returns the exit status", session level (2): when the LAST input was read by a live processor
+that then exited with status `d.code` (before, in the middle of, or after its answer; whatever the exit
+schedule), `close()` returns `d.code` — for every configuration except parser/tsdb, where `_tsdb_receive`
+itself replaces a processor whose exit it sees (that case is compared on the real code only). -/
+theorem close_status_of_failed_last (c : Cfg) (pre : List Item) (it : Item) (orc : List Bool)
+    (hwf : ∀ x ∈ pre ++ [it], WF c x) (d : Die) (hdie : it.die = some d)
+    (hc : (usesTsdb c && c.front == .parser) = false) (r : Resp)
+    (hr : (run c (pre ++ [it]) orc).resps.getLast? = some (Except.ok r)) (hs : r.served = true) :
+    (run c (pre ++ [it]) orc).close = d.code := by
+  have h0 := init_spec c orc
+  have hp := runFrom_spec c pre 0 (init c orc) h0.1 h0.2 (fun x hx => hwf x (by simp [hx]))
+  have hst := interact_spec c pre.length it (runFrom c 0 pre (init c orc)).2 hp.inv hp.runs_ne
+    (hwf it (by simp))
+  unfold run at hr ⊢
+  rw [runFrom_snoc] at hr ⊢
+  simp only [Nat.zero_add] at hr ⊢
+  simp only [List.getLast?_append, List.getLast?_singleton, Option.some_or, Option.some.injEq] at hr
+  obtain ⟨k1, k2⟩ := hst.last r d hr hs hdie hc
+  have hf := settle_fields (interact c pre.length it (runFrom c 0 pre (init c orc)).2).1
+  simp only [closeProc, hf.1, hf.2.2, k1, k2]
+  simp
+
 /-- PINS.  The literal values of the constants of `delphin/ace.py` (and of `util.SExpr`, `itsdb`) that
 Model.lean, the stand-in and the oracle hand-code an equivalent of, as read from the live code objects on
 every run (`harness/c19.py: pins()`; `None`, docstrings and log/exception message texts left out).
 A change to any of them stops this theorem from checking, which the check reports as a broken proof
-obligation and then searches for a failing input.  Which definition mirrors what:
+obligation and then searches for a failing input.  34 conjuncts: the four classified termini tables (`termini`,
+`readLines`), 29 constant lists and the `isspace` table.  Which definition mirrors what:
 * `c19InitConsts`, `c19InitDefaults`, `c19TransfererInitConsts`, `c19GeneratorInitConsts`, `c19ClassTables`,
   `c19AceVersionConsts`: `usesTsdb` (tsdb protocol iff `tsdbinfo` ∧ version ≥ 0.9.24; the transferer passes
   `tsdbinfo=False`), `Cfg` defaults, the options the stand-in is started with, its `-V` answer;
@@ -242,6 +283,9 @@ obligation and then searches for a failing input.  Which definition mirrors what
 * `c19SpaceCodes`: `isPySpace` (hence `strip`, `rstrip`, `validate .parser`, `wire`) — the code points with
   `str.isspace()` in the running interpreter, i.e. what `datum.strip()` / `datum.rstrip()` remove. -/
 theorem c19_pins :
+    parserTermini = [.blank, .blank] ∧ transfererTermini = [.blank]
+    ∧ generatorTermini = [.parseNote] ∧ generatorTsdbTermini = [.resultsOpen]
+    ∧
     c19InitConsts =
       ["ace", "(0, 9, 14)", "--tsdb-notes", "(0, 9, 24)", "--tsdb-stdout", "--report-labels", "--itsdb-forest", "-1"]
     ∧
@@ -332,7 +376,7 @@ theorem c19_pins :
     c19SpaceCodes =
       [9, 10, 11, 12, 13, 28, 29, 30, 31, 32, 133, 160, 5760, 8192, 8193, 8194, 8195, 8196, 8197, 8198, 8199, 8200,
        8201, 8202, 8232, 8233, 8239, 8287, 12288] := by
-  refine ⟨?_, ?_, ?_, ?_, ?_, ?_, ?_, ?_, ?_, ?_, ?_, ?_, ?_, ?_, ?_, ?_, ?_, ?_, ?_, ?_, ?_, ?_, ?_, ?_, ?_, ?_, ?_, ?_, ?_, ?_⟩ <;> rfl
+  refine ⟨?_, ?_, ?_, ?_, ?_, ?_, ?_, ?_, ?_, ?_, ?_, ?_, ?_, ?_, ?_, ?_, ?_, ?_, ?_, ?_, ?_, ?_, ?_, ?_, ?_, ?_, ?_, ?_, ?_, ?_, ?_, ?_, ?_, ?_⟩ <;> rfl
 
 /-! ## the hypothesis is needed, and the model is not vacuous (concrete sessions, checked by evaluation) -/
 
